@@ -3,6 +3,7 @@ package buffer
 import (
 	"encoding/binary"
 	"fmt"
+	"io"
 	"unsafe"
 )
 
@@ -87,7 +88,9 @@ func ReadUint8(r Reader, c *uint8) (n int64, err error) {
 
 // ReadUint8Slice reads a slice of byte from r and stores the result into c.
 func ReadUint8Slice(r Reader, c []uint8) (n int64, err error) {
-	nint, err := r.Read(c)
+	// r.Read may return fewer than len(c) bytes with a nil error (e.g. a
+	// bufio.Reader returns what is buffered): read until c is full.
+	nint, err := io.ReadFull(r, c)
 	return int64(nint), err
 }
 
